@@ -61,6 +61,14 @@ def exec_records(records, rng=None):
                 # records are flat: TaskRef dependencies, plain containers and literals, never a graph node
                 problems.append(("graph-node-left-in-record", f"record {r[0]} carries {sorted(set(left))} in its arguments"))
                 return {}, problems, dup
+    # the references a worker resolves — by the STRING of the embedded key, never through Python equality of key tuples
+    # (('x', np.int64(0)) == ('x', 0)): canonical key types, embedded references == declared deps (harness.props_ext.c21_catalog)
+    from harness.props_ext import c21_catalog as CC
+
+    audit = CC.ref_audit([r for rs in by_key.values() for r in rs])
+    if audit:
+        problems.extend(audit)
+        return {}, problems, dup
     dangling = sorted({d for rs in by_key.values() for r in rs for d in r[4] if d not in by_key})
     if dangling:
         problems.append(("dangling-dependency", f"{len(dangling)} e.g. {dangling[0]}"))
@@ -217,13 +225,16 @@ def run_case(ctx, case, count=True):
     from harness.props_ext import c21_fused as CF
     from harness.props_ext import c21_nested as CN
 
+    from harness.props_ext import c21_catalog as CC
+
     prog = case.get("prog") or []
-    fused = case.get("kind") == "fused"
+    catalog = case.get("kind") == "catalog"
+    fused = case.get("kind") == "fused" or catalog  # the builder's env carries its own NumPy witness (`_expected`)
     container = case.get("kind") == "container" or fused  # built by a builder of its own, with a NumPy witness
     fails = []
     with dask.config.set({"array.optimize-graph": case["optimize"]}):
         try:
-            env = CF.build_fused(case) if fused else CN.build_container(case) if container else programs.run_da_ext(prog)
+            env = CC.build_catalog(case) if catalog else CF.build_fused(case) if fused else CN.build_container(case) if container else programs.run_da_ext(prog)
         except NotImplementedError:
             ctx.notes["refused_at_construction"] = ctx.notes.get("refused_at_construction", 0) + 1
             return None
@@ -231,10 +242,12 @@ def run_case(ctx, case, count=True):
             # raising while the program is BUILT is not a statement about graphs / schedules / records
             # (e.g. broadcasting a length-1 axis chunked (0, 1)); counted with an example, reported
             ctx.notes["construction_raised"] = ctx.notes.get("construction_raised", 0) + 1
-            ctx.notes.setdefault("construction_raised_example", f"{type(e).__name__}: {str(e)[:100]} :: {[st['op'] for st in prog] or case.get('api') or case.get('expr')}")
+            ctx.notes.setdefault("construction_raised_example", f"{type(e).__name__}: {str(e)[:100]} :: {[st['op'] for st in prog] or case.get('api') or case.get('expr') or case.get('name')}")
             return None
+        if catalog:
+            case = dict(case, roots=env["_roots"])  # an entry with several outputs (qr, unique(return_counts), nonzero, …): walked as a group
         xs = [env[r] for r in case["roots"]]
-        label = "+".join(case["roots"])
+        label = "+".join(case["roots"]) if not catalog else f"{case['name']}[{'+'.join(case['roots'])}]"
         history = case.get("history", "group") if len(xs) > 1 else "group"
         ref0 = None
         if history == "alone-then-group":
@@ -328,12 +341,12 @@ def run_case(ctx, case, count=True):
                 except Exception:
                     ok = False
                 if not ok:
-                    key = "outside_C21:dask graph differs from NumPy " + ("(fused-layer program)" if fused else "(nested dask object reaches the function unresolved)")
+                    key = "outside_C21:dask graph differs from NumPy " + ("(catalogue entry)" if catalog else "(fused-layer program)" if fused else "(nested dask object reaches the function unresolved)")
                     ctx.notes[key] = ctx.notes.get(key, 0) + 1
                     ex = ctx.notes.setdefault("outside_C21:examples", [])
-                    tag = f"{case.get('api') or case.get('expr')} pre={case.get('pre')} post={case.get('post')} optimize={case['optimize']}"
+                    tag = f"{case.get('api') or case.get('expr') or case.get('name')} pre={case.get('pre')} post={case.get('post')} optimize={case['optimize']}"
                     if len(ex) < 6 and not any(e.startswith(tag) for e in ex):
-                        ex.append(f"{tag} args={case.get('args')} kwargs={case.get('kwargs')}")
+                        ex.append(f"{tag} args={case.get('args')} kwargs={case.get('kwargs')}" + (f" profile={case['profile']} dt={case.get('dt')}" if catalog else ""))
                     return None
         want_keys = [str(k) for x in xs for k in flatten(x.__dask_keys__())]
         if outkeys != list(dict.fromkeys(want_keys)) and len(xs) == 1:
@@ -373,6 +386,23 @@ def run_case(ctx, case, count=True):
                         fails.append(("records:block-value-differs", f"{label}: block {s}: records give {np.asarray(values[s]).ravel()[:6].tolist()} "
                                       f"dask graph gives {np.asarray(ref[k]).ravel()[:6].tolist()}"))
                         break
+        if catalog and any("block-value-differs" in s for s, _ in fails):
+            # a task that carries a STATEFUL argument (Generator.choice embeds one live BitGenerator in every block's task): executing
+            # the dask graph twice gives two different sets of values, there is no reference to compare the records with.
+            # Decided on the dask graph alone; noted with the entry, not a records-path failure
+            try:
+                ref2, _ = graphs.execute(tasks, rng=None, order="fifo")
+                unstable = any(graphs.fingerprint(ref2[k]) != graphs.fingerprint(ref[k]) for x in xs for k in flatten(x.__dask_keys__()))
+            except Exception:
+                unstable = False
+            if unstable:
+                key = "outside_C21:dask graph not reproducible (a task argument is stateful: two executions of ONE graph differ)"
+                ctx.notes[key] = ctx.notes.get(key, 0) + 1
+                ex = ctx.notes.setdefault("outside_C21:not-reproducible entries", [])
+                if case["name"] not in ex:
+                    ex.append(case["name"])
+                fails = [(s, d) for s, d in fails if "block-value-differs" not in s]
+                values = {}
         if history == "group-then-alone" and not fails:
             for r, x in zip(case["roots"], xs):
                 f, _ = verify_alone(x, ref, f"{r} alone after the group walk {label}")
@@ -425,7 +455,9 @@ def run_case(ctx, case, count=True):
         if count:
             kinds = tuple(sorted({type(n).__name__ for n in nodes.values()}))
             ctx.count(("recs", case["optimize"], len(xs) > 1, kinds))
-            if fused:
+            if catalog:
+                ctx.count(CC.catalog_class(case))
+            elif fused:
                 ctx.count(CF.fused_class(case, CF.fused_paths(xs[0]) if len(xs) == 1 else ()))
             elif container:
                 ctx.count(CN.container_class(case))
@@ -505,9 +537,11 @@ def report_ext(ctx, case, fails):
         fresh = lambda: "%s~%d" % (case["name"].split("~")[0], ctx.rng.randrange(10**9))
         runner = lambda c: CF.run_samename(ctx, c, exec_records, count=False)
         shrinker = lambda c, still: CF.shrink_samename(dict(c, name=fresh()), still, fresh)
-    elif case["kind"] in ("container", "fused"):
+    elif case["kind"] in ("container", "fused", "catalog"):
+        from harness.props_ext import c21_catalog as CC
+
         runner = lambda c: run_case(ctx, c, count=False)
-        shrinker = CN.shrink_container if case["kind"] == "container" else CF.shrink_fused
+        shrinker = CN.shrink_container if case["kind"] == "container" else CF.shrink_fused if case["kind"] == "fused" else CC.shrink_catalog
     else:
         runner = lambda c: CN.run_history(ctx, c, exec_records, count=False)
         shrinker = CN.shrink_history
@@ -537,7 +571,7 @@ def report_ext(ctx, case, fails):
 
 
 def report(ctx, case, fails):
-    if case.get("kind") in ("container", "history", "fused", "samename"):
+    if case.get("kind") in ("container", "history", "fused", "samename", "catalog"):
         return report_ext(ctx, case, fails)
     by_sig = {}
     for sig, detail in fails:
@@ -825,7 +859,14 @@ def run(ctx, replay=None):
         "block maps, post, optimize, ragged, non-square, fast-path taken); same-name histories: 2-3 arrays created in one process under one "
         "user-supplied name= (from_array / map_blocks(name=)) with different grids and/or data, coarser first / finer first / all created before any walk, "
         "each consumed through cumsum / cumprod / arg-reductions / map_overlap / reductions / slicing / take / rechunk / reshape / concatenate / "
-        "map_blocks(block_id) — every consumer x both orders enumerated + seeded random, every case under a name of its own"
+        "map_blocks(block_id) — every consumer x both orders enumerated + seeded random, every case under a name of its own. "
+        "PLUS (harness.props_ext.c21_catalog) the public-API catalogue: the table of Array methods / da functions of harness.props_ext.c03_layout + "
+        "directed entries feeding NumPy-typed indices / axes / offsets / depths / block numbers / chunk sizes to diag, diagonal, vindex (all forms), "
+        "tril / triu, take, getitem, blocks, overlap, tsqr / qr / svd, arg-reductions, bincount, histogram, searchsorted, random choice, shuffle — "
+        "directed entries in every run, the rest swept in seeded order inside a budget; operand from from_array / a blockwise layer / a rechunk; "
+        "several outputs of one entry walked as a group; EVERY executed record set is audited first: embedded TaskRef keys of canonical types (str "
+        "names, plain int coordinates), set of str(embedded key) == declared deps, no NumPy scalar repr in key / dep strings (references are resolved "
+        "by key string, never through Python equality of key tuples)"
     )
     ctx.assumptions = [
         "the native Rust extension is absent: _frisky_layer() always falls back to GraphRecordsLayer, the only path checked; "
@@ -864,6 +905,7 @@ def run(ctx, replay=None):
         warnings.simplefilter("ignore")  # "Computing mixed collections …" for every Delayed next to an array expression
         nested_streams(ctx, corr_pairs)
         fused_streams(ctx, corr_pairs)
+        catalog_streams(ctx, corr_pairs)
     t_run = time.time()
     n = ctx.scale(160, 3000)
     budget = ctx.scale(26, 400)
@@ -908,6 +950,46 @@ def run(ctx, replay=None):
     nd += ctx.correspond("_walk_records(shared seen)", walk_pairs, branch_key=lambda req, model: (len(model) // 6, req.count(";") // 4))
     if nd:
         targeted(ctx)
+
+
+def catalog_streams(ctx, corr_pairs):
+    """(0) the public-API catalogue through the records path (harness.props_ext.c21_catalog): the directed entries (NumPy-typed
+    indices / axes / offsets / block numbers into diag, vindex, tril/triu, take, blocks, overlap, tsqr/svd, arg-reductions, bincount,
+    histogram, searchsorted, random choice, shuffle) in every run, then the sweep over the rest of the table inside a time budget"""
+    import dask
+    from harness.props_ext import c21_catalog as CC
+
+    rng = ctx.rng
+    reported = {}
+    t0 = time.time()
+    directed, sweep = CC.catalog_cases(rng, full=ctx.tier != "quick")
+    budget = ctx.scale(7.5, 90)
+    done = 0
+    for i, case in enumerate(directed + sweep):
+        if i >= len(directed) and time.time() - t0 > budget:
+            break
+        if time.time() - t0 > 2 * budget:
+            break
+        done += 1
+        if i in (0, 30):
+            ctx.sample({k: v for k, v in case.items() if k in ("kind", "name", "profile", "pre", "optimize")})
+        fails = run_case(ctx, case)
+        if fails:
+            sigs = tuple(sorted({s for s, _ in fails}))
+            reported[sigs] = reported.get(sigs, 0) + 1
+            if reported[sigs] > 3:
+                ctx.notes["further_failing_cases_of_reported_classes"] = ctx.notes.get("further_failing_cases_of_reported_classes", 0) + 1
+                continue
+            report(ctx, case, fails)
+        if i % 3 == 0 and len(corr_pairs) < 600:
+            try:
+                with dask.config.set({"array.optimize-graph": case["optimize"]}):
+                    env = CC.build_catalog(case)
+                    p, _ = flatten_pairs(ctx, [env[env["_roots"][0]]], 20)
+                corr_pairs += p
+            except Exception:
+                pass
+    ctx.notes["catalog_cases"] = f"{len(directed)} directed + {max(0, done - len(directed))} of {len(sweep)} sweep entries in {time.time() - t0:.1f}s"
 
 
 def nested_streams(ctx, corr_pairs):
